@@ -895,3 +895,149 @@ Proof.
   split; [exact G1|]. split; [exact El|]. split; [exact Er|].
   intros b Hb. split; [apply G2|]. apply (forced_collect_purges _ _ _ _ _ _ _ _ _ _ _ _ _ _ H Hs b Hb). apply G2.
 Qed.
+
+(* ---------------------------------------------------------------- OS-backed memory is accounted for in every state *)
+(* with every munmap granted: a slice outside the arena is accessible only inside a live OS-backed segment *)
+Lemma os_memory_accounted c start nblocks ic iz ops o st rs o' :
+  run c (state_init start nblocks ic iz) ops o = Some (st, rs, o') -> ops_unmaps_ok ops = true ->
+  forall x, st_acc st x = true -> ~ (start <= x < start + nblocks * BLOCK_SLICES) ->
+  exists s, In s (st_segs st) /\ sg_mem s = MemOs /\ sg_base s <= x < sg_base s + sg_nslices s.
+Proof.
+  intros H Hu x Hx Hout.
+  pose proof (run_gb c true _ ops _ o st rs o' (GB_init c true start nblocks ic iz) (fun _ => Hu) H) as [HI [[S1 [S2 _]] _ _ HO]].
+  cbn in S1, S2. assert (Hna : ~ in_arena (st_arena st) x) by (unfold in_arena; rewrite S1, S2; exact Hout).
+  destruct (HO eq_refl x Hx) as [G|[s [Hs Hin]]]; [contradiction|].
+  exists s. split; [exact Hs|]. split; [|exact Hin].
+  destruct (sg_mem s) as [b0 nb|] eqn:Em; [|reflexivity]. exfalso. apply Hna. exact (arena_seg_in_arena st HI s b0 nb x Hs Em Hin).
+Qed.
+
+(* every in-use block has an owner, in every reachable state *)
+Lemma inuse_owned_reachable c start nblocks ic iz ops o st rs o' :
+  run c (state_init start nblocks ic iz) ops o = Some (st, rs, o') -> inuse_owned st.
+Proof.
+  intros H. pose proof (run_gb c false _ ops _ o st rs o' (GB_init c false start nblocks ic iz) (fun E => ltac:(discriminate)) H) as [_ HX].
+  exact (X_U _ _ _ _ HX).
+Qed.
+
+(* ---------------------------------------------------------------- the boolean forms (Model/GiveBack.v) *)
+Lemma block_owned_b_iff segs raws b : block_owned_b segs raws b = true <-> owned_by segs raws b.
+Proof.
+  unfold block_owned_b, owned_by. rewrite orb_true_iff, !existsb_exists. split.
+  - intros [[s [Hs H]]|[r [Hr H]]].
+    + left. unfold seg_owns_block in H. destruct (sg_mem s) as [b0 nb|] eqn:Em; [|discriminate]. apply in_range_spec in H. exists s, b0, nb. auto.
+    + right. unfold raw_owns_block in H. apply in_range_spec in H. exists r. auto.
+  - intros [[s [b0 [nb [Hs [Hm Hb]]]]]|[r [Hr Hb]]].
+    + left. exists s. split; [exact Hs|]. unfold seg_owns_block. rewrite Hm. apply in_range_spec. exact Hb.
+    + right. exists r. split; [exact Hr|]. apply in_range_spec. exact Hb.
+Qed.
+Lemma inuse_owned_b_iff st :
+  inuse_owned_b st = true <-> (forall b, b < a_nblocks (st_arena st) -> a_inuse (st_arena st) b = true -> owned_by (st_segs st) (st_raw st) b).
+Proof.
+  unfold inuse_owned_b. rewrite all_in_spec. split.
+  - intros H b Hb Hi. specialize (H b ltac:(lia)). rewrite Hi in H. cbn in H. apply block_owned_b_iff. exact H.
+  - intros H b Hb. destruct (a_inuse (st_arena st) b) eqn:E; [|reflexivity]. cbn. apply block_owned_b_iff. apply H; [lia|exact E].
+Qed.
+Lemma all_freed_b_iff st : all_freed_b st = true <-> st_live st = [] /\ st_raw st = [].
+Proof. unfold all_freed_b. destruct (st_live st), (st_raw st); split; try discriminate; auto; intros [? ?]; discriminate. Qed.
+Lemma gave_back_b_iff st :
+  gave_back_b st = true <-> st_segs st = [] /\ forall b, b < a_nblocks (st_arena st) -> a_inuse (st_arena st) b = false.
+Proof.
+  unfold gave_back_b, no_segment_b, no_block_inuse_b. rewrite andb_true_iff, negb_true_iff, any_in_false. split.
+  - intros [H1 H2]. split; [destruct (st_segs st); [reflexivity|discriminate]|]. intros b Hb. apply H2. lia.
+  - intros [H1 H2]. rewrite H1. split; [reflexivity|]. intros b Hb. apply H2. lia.
+Qed.
+Lemma no_purge_scheduled_b_iff a :
+  no_purge_scheduled_b a = true <-> forall b, b < a_nblocks a -> a_inuse a b = false -> a_purge a b = false.
+Proof.
+  unfold no_purge_scheduled_b. rewrite negb_true_iff, any_in_false. split.
+  - intros H b Hb Hf. specialize (H b ltac:(lia)). rewrite Hf in H. cbn in H. rewrite andb_true_r in H. exact H.
+  - intros H b Hb. destruct (a_inuse a b) eqn:E; [apply andb_false_r|]. rewrite (H b ltac:(lia) E). reflexivity.
+Qed.
+
+(* what the correspondence check evaluates on the model state in lockstep with the real allocator *)
+Lemma reachable_checks c start nblocks ic iz ops o st rs o' :
+  run c (state_init start nblocks ic iz) ops o = Some (st, rs, o') ->
+  inuse_owned_b st = true /\ (all_freed_b st = true -> gave_back_b st = true).
+Proof.
+  intros H. split.
+  - apply inuse_owned_b_iff. intros b _. apply (inuse_owned_reachable _ _ _ _ _ _ _ _ _ _ H).
+  - intros Hf. apply all_freed_b_iff in Hf. destruct Hf as [Hl Hr].
+    destruct (all_freed_gives_back _ _ _ _ _ _ _ _ _ _ H Hl Hr) as [G1 [G2 _]]. apply gave_back_b_iff. auto.
+Qed.
+Lemma collect_check c start nblocks ic iz ops o st rs o1 order st' r o' :
+  run c (state_init start nblocks ic iz) ops o = Some (st, rs, o1) ->
+  step c st (OpCollect order) o1 = Some (st', r, o') -> no_purge_scheduled_b (st_arena st') = true.
+Proof.
+  intros H Hs. apply no_purge_scheduled_b_iff. intros b Hb.
+  pose proof (run_gb c false _ ops _ o st rs o1 (GB_init c false start nblocks ic iz) (fun E => ltac:(discriminate)) H) as HG.
+  pose proof (step_gb c false _ st (OpCollect order) o1 st' r o' HG (fun E => ltac:(discriminate)) Hs) as [_ [[_ [S2 _]] _ _ _]]. cbn in S2.
+  rewrite S2 in Hb. exact (forced_collect_purges _ _ _ _ _ _ _ _ _ _ _ _ _ _ H Hs b Hb).
+Qed.
+
+(* ---------------------------------------------------------------- concrete histories *)
+(* arena of 4 blocks over inaccessible memory; segment A on block 2, B on block 0, a huge segment on block 1, an OS-backed
+   segment at slice 100000, a fresh segment on block 3 whose first span commit is refused (freed again at once), a span
+   commit in B refused once (restore path, forced collect, retry granted); then everything is freed and collected *)
+Definition gb_segA : N := 32768 + 1024.
+Definition gb_segB : N := 32768.
+Definition gb_segH : N := 32768 + 512.
+Definition gb_segO : N := 100000.
+Definition gb_ops : list op :=
+  [ OpAlloc 8 false false [[WNewArena 2; WSpan gb_segA 1 1 511]] [] [];
+    OpAlloc 16 false false [[WNewArena 0; WSpan gb_segB 1 1 511]] [] [];
+    OpAlloc 320 true true [[WNewArena 1]] [] [];
+    OpAlloc 8 false false [[WNewOs (Some gb_segO) true; WSpan gb_segO 1 1 511]] [] [];
+    OpAlloc 8 false false [[WNewArena 3; WSpan (32768 + 1536) 1 1 511]] [] [];
+    OpAlloc 32 false false [[WSpan gb_segB 17 17 495]] [gb_segB; gb_segA] [[WSpan gb_segB 17 17 495]];
+    OpFree {| pg_seg := gb_segA; pg_lo := 1; pg_n := 8 |} 1 511 false true;
+    OpFree {| pg_seg := gb_segB; pg_lo := 1; pg_n := 16 |} 1 16 false true;
+    OpFree {| pg_seg := gb_segH; pg_lo := 1; pg_n := 320 |} 1 320 false true;
+    OpFree {| pg_seg := gb_segO; pg_lo := 1; pg_n := 8 |} 1 511 false true;
+    OpFree {| pg_seg := gb_segB; pg_lo := 17; pg_n := 32 |} 1 511 false true;
+    OpCollect [] ].
+(* answers: A header, A span, B header, B span, huge arena commit, OS header, OS span, block-3 header, block-3 span REFUSED,
+   B span REFUSED, retry granted *)
+Definition gb_oracle : list bool := [true; true; true; true; true; true; true; true; false; false; true].
+
+Definition gb_summary (c : cfg) : option (list bool * list N * list bool) :=
+  match run c ex_state gb_ops gb_oracle with
+  | Some (st, rs, o) =>
+    Some ([ all_freed_b st; gave_back_b st; commit_inv_b st; inuse_owned_b st; no_purge_scheduled_b (st_arena st);
+            outside_inaccessible_b st gb_segO 512; ops_unmaps_ok gb_ops ],
+          [ N.of_nat (length o);
+            N.of_nat (length (filter (fun r => match r with RPage _ => true | _ => false end) rs));
+            N.of_nat (length (filter (fun r => match r with RNone => true | _ => false end) rs)) ],
+          (* what is NOT reset: dirty, committed bits and accessibility inside the arena differ from state_init *)
+          [ a_dirty (st_arena st) 0; a_dirty (st_arena st) 3; a_committed (st_arena st) 1; st_acc st gb_segH; st_acc st gb_segO ])
+  | None => None
+  end.
+
+Example gb_history_release : gb_summary ex_cfg =
+  Some ([true; true; true; true; true; true; true], [0; 5; 1], [true; true; true; true; false]).
+Proof. vm_compute. reflexivity. Qed.
+Example gb_history_decommit : gb_summary ex_cfg_decommit =
+  Some ([true; true; true; true; true; true; true], [0; 5; 1], [true; true; false; false; false]).
+Proof. vm_compute. reflexivity. Qed.
+
+(* the pre-repair mi_segments_page_alloc (CommitProofs.segments_page_alloc_old) violates all_freed_gives_back: a malloc whose
+   first span commit in a fresh segment is refused returns NULL and keeps the segment.  No page is live, no raw
+   allocation is held, the state satisfies commit_Inv and even (U) -- the segment owns its block -- but the segment and
+   its arena block stay for ever: a forced collect does not reach a segment without pages.  The repaired function ends
+   in a state that has given everything back.
+     (all_freed_b, no_segment_b, gave_back_b, commit_inv_b, inuse_owned_b, blocks_inuse bit 2) *)
+Definition gb_after_collect (r : option (state * option page * list bool)) : option (list bool) :=
+  match r with
+  | Some (st, None, o) =>
+    match step ex_cfg st (OpCollect [gb_segA]) o with
+    | Some (st', _, _) =>
+      Some [ all_freed_b st'; no_segment_b st'; gave_back_b st'; commit_inv_b st'; inuse_owned_b st'; a_inuse (st_arena st') 2 ]
+    | None => None
+    end
+  | _ => None
+  end.
+Example old_code_does_not_give_back :
+  gb_after_collect (segments_page_alloc_old ex_cfg ex_state 8 false [WNewArena 2; WSpan gb_segA 1 1 511] [true; false])
+    = Some [true; false; false; true; true; true] /\
+  gb_after_collect (segments_page_alloc ex_cfg ex_state 8 false [WNewArena 2; WSpan gb_segA 1 1 511] [true; false])
+    = Some [true; true; true; true; true; false].
+Proof. split; vm_compute; reflexivity. Qed.
